@@ -256,12 +256,11 @@ class PkgConfigInfo:
         ))
         src_build_deps = [i for i in all_src if getattr(i, 'creator', None)]
 
-        # Add all the (unique) dependent libs to libs_private, unless they're
-        # already in libs.
+        # Add all the (unique) dependent libs to libs_private, even if they're
+        # already in libs: for static linking, a library has to be listed
+        # *after* the libraries that depend on it.
         fwd = opts.ForwardOptions.recurse(chain(libs, libs_private))
-        libs_private = uniques(chain(
-            libs_private, (i for i in fwd.libs if i not in libs)
-        ))
+        libs_private = uniques(chain(libs_private, fwd.libs))
 
         # Get the package dependencies for all the libs (public and private)
         # that were passed in.
